@@ -511,3 +511,53 @@ pub fn exec_c15rand(plan: &Plan) -> RunResult {
     res.digest = digests[0];
     res
 }
+
+// ---- C15 (rand, histories): the C18 plans (scripted RNG streams, rejection retries, zero draws that are
+// retried, very large sizes) executed under the guarded allocator ----------------------------------------
+
+#[cfg(feature = "opt")]
+pub fn gen_c15c18(rng: &mut Prng, plan: &mut Plan) {
+    crate::scn_c18::gen(rng, plan);
+    let policy = rng.below(3) as i128;
+    // the very long stuck-at prefixes belong to C18; under the guarded allocator every retry costs a page mapping
+    let mut cfg = Step::new("cfg");
+    for (k, v) in &plan.cfg.args {
+        match (k.as_str(), v) {
+            ("stuck", crate::plan::Val::Int(n)) => cfg = cfg.i("stuck", (*n).min(4 * 400)),
+            (k, crate::plan::Val::Int(n)) => cfg = cfg.i(k, *n),
+            (k, crate::plan::Val::List(l)) => cfg = cfg.l(k, l.clone()),
+            (k, crate::plan::Val::Str(t)) => cfg = cfg.s(k, t),
+        }
+    }
+    plan.cfg = cfg.i("policy", policy);
+}
+
+#[cfg(feature = "opt")]
+pub fn exec_c15c18(plan: &Plan) -> RunResult {
+    use crate::simalloc;
+    let plain = crate::scn_c18::exec(plan);
+    if !plain.violations.is_empty() {
+        return plain;
+    }
+    simalloc::set_policy(plan.cfg.int("policy") as u8);
+    simalloc::begin_run(plan.hash());
+    let before = simalloc::counters();
+    simalloc::set_mode(simalloc::GUARD);
+    let mut guarded = crate::scn_c18::exec(plan);
+    simalloc::set_mode(simalloc::PLAIN);
+    let after = simalloc::counters();
+    guarded.reach_n("alloc_guard_end", after.0 - before.0);
+    guarded.reach_n("alloc_guard_start", after.1 - before.1);
+    guarded.steps += plain.steps;
+    if guarded.violations.is_empty() && guarded.digest != plain.digest {
+        guarded.violate(
+            "C15",
+            "allocator-dependence",
+            "rand-history",
+            0,
+            format!("same RNG plan, different transcript under the guarded allocator: {:016x} vs {:016x}", plain.digest, guarded.digest),
+        );
+    }
+    guarded.nontrivial = true;
+    guarded
+}
